@@ -116,6 +116,115 @@ theorem readyNative_ready : Ready 3 readyNative := by
   have : k = 3 := by simp [readyNative] at hk; omega
   omega
 
+/-! ### Host steps interleaved with the thread's last steps -/
+
+/-- Run a schedule of thread steps and host calls; a line that is not executable (an `intS` with no `interrupt()` in
+flight) is skipped. -/
+def runS (s : State) : List Act → State
+  | [] => s
+  | a :: r => match step s a with
+    | none => runS s r
+    | some s' => runS s' r
+
+def Act.isThread : Act → Bool
+  | .thread _ => true
+  | _ => false
+
+/-- A line of the mixed schedule: a bounded thread step or one of the two stores of a further `interrupt()`. -/
+def hostOk (B : Nat) : Act → Bool
+  | .thread c => c.bounded B
+  | .intP | .intS => true
+  | _ => false
+
+theorem hostOk_cases {B : Nat} {a : Act} (h : hostOk B a = true) :
+    (∃ c, a = .thread c ∧ c.bounded B = true) ∨ a = .intP ∨ a = .intS := by
+  cases a <;> simp_all [hostOk]
+
+/-- A further `interrupt()` (either of its two stores) leaves a ready thread ready, where it is. -/
+theorem ready_host {B : Nat} {s s' : State} {a : Act} (h : Ready B s) (ha : a = .intP ∨ a = .intS)
+    (hs : step s a = some s') : Ready B s' ∧ s'.pc = s.pc := by
+  obtain ⟨h1, h2, h3, h4, h5, h6⟩ := h
+  rcases ha with rfl | rfl
+  · simp only [step] at hs; cases hs
+    exact ⟨⟨rfl, h2, h3, h4, h5, h6⟩, rfl⟩
+  · simp only [step] at hs
+    split at hs
+    · cases hs; exact ⟨⟨h1, rfl, h3, h4, h5, h6⟩, rfl⟩
+    · cases hs
+
+theorem runS_terminal (as : List Act) : ∀ {s : State}, s.pc.terminal = true →
+    (∀ a ∈ as, a.isThread = true ∨ a = .intP ∨ a = .intS) → (runS s as).pc.terminal = true := by
+  induction as with
+  | nil => intro s h _; exact h
+  | cons a r ih =>
+    intro s h hb
+    have hr : ∀ a ∈ r, a.isThread = true ∨ a = .intP ∨ a = .intS := fun x hx => hb x (by simp [hx])
+    simp only [runS]
+    cases hs : step s a with
+    | none => exact ih h hr
+    | some s' =>
+      apply ih _ hr
+      rcases hb a (by simp) with ht | rfl | rfl
+      · cases a <;> simp [Act.isThread] at ht
+        simp only [step] at hs; cases hs
+        rw [stepT_terminal h]; exact h
+      · simp only [step] at hs; cases hs; exact h
+      · simp only [step] at hs; split at hs <;> cases hs; exact h
+
+/-- **Bounded interruption with the host still acting**: once the request is complete, the evaluation returns within
+`dist B pc ≤ B + 5` further steps OF THE THREAD, however many further `interrupt()` calls (their two stores, in any
+position) are interleaved with them. -/
+theorem interrupt_bounded_host (B : Nat) (as : List Act) : ∀ (s : State), Ready B s →
+    (∀ a ∈ as, hostOk B a = true) →
+    dist B s.pc ≤ (as.filter Act.isThread).length → (runS s as).pc.terminal = true := by
+  induction as with
+  | nil =>
+    intro s h _ hd
+    obtain ⟨h1, h2, h3, h4, h5, h6⟩ := h
+    simp only [List.filter_nil, List.length_nil, Nat.le_zero] at hd
+    cases hp : s.pc <;> simp_all [dist, PC.terminal, PC.inRound, runS]
+    all_goals (rename_i k; cases k <;> simp_all)
+  | cons a r ih =>
+    intro s h hb hd
+    have hr : ∀ a ∈ r, hostOk B a = true := fun x hx => hb x (by simp [hx])
+    have hr' : ∀ a ∈ r, a.isThread = true ∨ a = .intP ∨ a = .intS := by
+      intro x hx
+      rcases hostOk_cases (hr x hx) with ⟨c, rfl, _⟩ | e | e
+      · exact Or.inl rfl
+      · exact Or.inr (Or.inl e)
+      · exact Or.inr (Or.inr e)
+    simp only [runS]
+    rcases hostOk_cases (hb a (by simp)) with ⟨c, rfl, hc⟩ | ha | ha
+    · simp only [step]
+      by_cases hnt : s.pc.terminal = true
+      · rw [stepT_terminal hnt]; exact runS_terminal r hnt hr'
+      · have hnt' : s.pc.terminal = false := by simpa using hnt
+        obtain ⟨hrd, hlt⟩ := ready_step h hc hnt'
+        rcases hrd with hrd | hrd
+        · apply ih _ hrd hr
+          rw [List.filter_cons_of_pos (by rfl)] at hd
+          simp only [List.length_cons] at hd; omega
+        · exact runS_terminal r hrd hr'
+    · cases hs : step s a with
+      | none => simp only []; apply ih s h hr; rcases ha with rfl | rfl <;> simpa [Act.isThread] using hd
+      | some s' =>
+        simp only []
+        obtain ⟨h', hpc⟩ := ready_host h (Or.inl ha) hs
+        apply ih s' h' hr
+        rw [hpc]; subst ha; simpa [Act.isThread] using hd
+    · cases hs : step s a with
+      | none => simp only []; apply ih s h hr; subst ha; simpa [Act.isThread] using hd
+      | some s' =>
+        simp only []
+        obtain ⟨h', hpc⟩ := ready_host h (Or.inr ha) hs
+        apply ih s' h' hr
+        rw [hpc]; subst ha; simpa [Act.isThread] using hd
+
+/-- Non-vacuity: `readyNative` (B = 3, dist = 6) with two further `interrupt()` calls interleaved. -/
+example : (runS readyNative [.thread .plain, .intP, .thread .callPrim, .intS, .thread .nest, .intS, .thread .plain,
+    .thread (.callNative 2), .intP, .thread .plain]).pc.terminal = true :=
+  interrupt_bounded_host 3 _ readyNative readyNative_ready (by decide) (by decide)
+
 /-- Non-vacuity of `ready_step` and `interrupt_bounded`: all hypotheses hold on `readyNative` (reachable,
 `B = 3`, `dist = 6`) with a tail that calls a primitive, enters a nested loop and calls native code again. -/
 example : (Ready 3 (stepT readyNative .plain) ∨ (stepT readyNative .plain).pc.terminal = true) ∧
@@ -677,7 +786,7 @@ loops, native calls, requests, resumes and re-runs, if in the state reached a re
 and the thread is not inside a native region longer than `B` (or one without poll), then whatever it executes
 next (bounded choices: no round of its own, native regions ≤ `B`), the evaluation has returned after
 `dist B pc ≤ B + 5` further steps of the thread — with the interrupt error unless the program finishes first.
-(Host steps interleaved with those last `B + 5` thread steps are not part of the statement.) -/
+(Host steps interleaved with those last `B + 5` thread steps: `interrupt_bounded_host`.) -/
 theorem interrupt_end_to_end_partial (B : Nat) (sched : List Act) (cs : List Choice) :
     let s := runG2 init sched
     s.pending = true → s.hostMid = false → s.pc ≠ .native none → (∀ k, s.pc = .native (some k) → k ≤ B) →
@@ -796,9 +905,9 @@ theorem example_native_nested :
   has returned.
 * "within a bounded number of further script steps": `B + 5` where `B` is a PARAMETER bounding the native
   regions entered; for a native back-edge without poll there is no bound (`not_interrupt_bounded_native`,
-  K17b).  `interrupt_bounded` counts steps of the thread only: host steps (a second `interrupt()`) interleaved
-  with them, and more than one engine thread (requests to a thread parked in another thread's round: C15/C16),
-  are not part of the statement.
+  K17b).  Host steps interleaved with the thread's last steps ARE covered: `interrupt_bounded_host` (any number of
+  further `interrupt()` calls, their stores in any position, `B + 5` counts thread steps only).  More than one engine
+  thread (requests to a thread parked in another thread's round) is part of `C15.R.interrupt_not_lost` only.
 * "with native code generation on and off": one abstract tier; which opcodes compile to what is the table.
 * "the engine can then be resumed and used normally": `resume_usable` is about the two flags, the pc and the
   depth counter.  That the stack, the global table, open `dynamic-wind` extents, handlers and the heap of the
